@@ -85,6 +85,8 @@ def rule_cli_generate(ctx):
     if fn is None:
         return [bad('FLAG-PLUMB', 'floor', 'anchor-missing: generate::generate_code not found')]
     cli = ctx.crate('cli')
+    fl = H.Flat(ctx, fn, 2)
+    ev = lambda n_: ctx.pv.eval(fl.owner_of(n_), n_, {}, 0)
     # clap definition
     cli_enum = cli.ast_item('Cli', 'enum')
     gen_fields = {}
@@ -97,7 +99,7 @@ def rule_cli_generate(ctx):
                         a.update(item_attrs(f, nm))
                     gen_fields[f['name']] = (a, f)
     setters = {}
-    for n in H.calls_in(fn):
+    for n in fl.calls():
         if n['k'] == 'mcall' and n['method'].startswith('set_') and ctx.pv.local_fns(n.get('callee')):
             setters.setdefault(n['method'], []).append(n)
     for setter, (field, longname) in FLAG_TABLE.items():
@@ -106,7 +108,7 @@ def rule_cli_generate(ctx):
         if not calls:
             obs.append(bad('FLAG-PLUMB', inst, '%s is never called by `generate`' % setter, fn.loc, 'the flag --%s has no effect' % longname))
             continue
-        t = ctx.pv.eval(fn, calls[0]['args'][0], {}, 0)
+        t = ev(calls[0]['args'][0])
         fields = {f for f in TM.fields_in(t) if f.startswith('Generate.') or f.startswith('Cli::Generate.')}
         got = {f.split('.')[-1] for f in fields}
         if got != {field}:
@@ -120,14 +122,14 @@ def rule_cli_generate(ctx):
         else:
             obs.append(ok('FLAG-PLUMB', inst, '--%s -> %s -> %s' % (longname, field, setter), calls[0].get('sp', '')))
     # paths and mode
-    gens = H.find_calls(fn, ['graphql_client_codegen::generate_module_token_stream'])
+    gens = fl.calls_to('graphql_client_codegen::generate_module_token_stream')
     if not gens:
         obs.append(bad('ONE-ENTRY', 'generate/entry', '`generate` does not call the library entry generate_module_token_stream', fn.loc,
                        'CLI output is not the library\'s output'))
     else:
         g = gens[0]
-        qa = ctx.pv.eval(fn, g['args'][0], {}, 0)
-        sa = ctx.pv.eval(fn, g['args'][1], {}, 0)
+        qa = ev(g['args'][0])
+        sa = ev(g['args'][1])
         if {f.split('.')[-1] for f in TM.fields_in(qa)} == {'query_path'} and {f.split('.')[-1] for f in TM.fields_in(sa)} == {'schema_path'}:
             obs.append(ok('FLAG-PLUMB', 'generate/paths', 'query and schema paths go to the library entry in that order', g.get('sp', '')))
         else:
@@ -137,7 +139,7 @@ def rule_cli_generate(ctx):
         sp = gen_fields.get('schema_path', ({}, None))[0]
         if sp.get('long') != 'schema-path':
             obs.append(bad('FLAG-PLUMB', 'generate/schema-path-flag', '--schema-path flag is %s' % sp.get('long'), '', 'documented flag not accepted'))
-    news = [n for n in H.calls_in(fn) if any(p.endswith('GraphQLClientCodegenOptions::new') for p in H.callee_paths(n))]
+    news = fl.calls_to('GraphQLClientCodegenOptions::new')
     if news and news[0]['args'] and news[0]['args'][0].get('k') == 'path' and news[0]['args'][0]['res'].get('path', '').endswith('CodegenMode::Cli'):
         obs.append(ok('FLAG-PLUMB', 'generate/mode', 'options built with CodegenMode::Cli', news[0].get('sp', '')))
     else:
@@ -145,7 +147,7 @@ def rule_cli_generate(ctx):
     # module visibility table
     mv = setters.get('set_module_visibility', [])
     if mv:
-        t = ctx.pv.eval(fn, mv[0]['args'][0], {}, 0)
+        t = ev(mv[0]['args'][0])
         tbl = {}
         for conds, leaf in P.leaves(t):
             key = None
@@ -166,16 +168,16 @@ def rule_cli_generate(ctx):
             obs.append(bad('FLAG-PLUMB', 'generate/visibility-table', 'module visibility table is %s' % {k: sorted(v) for k, v in tbl.items()}, mv[0].get('sp', ''),
                            '--module-visibility does not give the documented visibility'))
     # OUT-CONTENT: what is written
-    creates = fs_write_calls(fn)
-    writes = [n for n in walk(fn.body) if n['k'] == 'macro' and n['name'].split('::')[-1] in ('write', 'writeln')]
+    creates = [n for n in fl.calls() if any(p.startswith(FS_WRITES) or p.endswith(('File::create', 'fs::write', 'OpenOptions::open')) for p in H.callee_paths(n))]
+    writes = fl.nodes(lambda n: n['k'] == 'macro' and n['name'].split('::')[-1] in ('write', 'writeln'))
     if len(creates) != 1 or not writes:
         obs.append(bad('OUT-CONTENT', 'generate/shape', 'expected exactly one file creation and one write!, found %d/%d' % (len(creates), len(writes)), fn.loc,
                        'more or less than the library output is written'))
     else:
         w = writes[-1]
-        wargs = [fn.nodes.get(a['id']) for a in w['args'] if a['how'] == 'span']
+        wargs = [fl.owner_of(w).nodes.get(a['id']) for a in w['args'] if a['how'] == 'span']
         wargs = [a for a in wargs if a is not None]
-        content = ctx.pv.eval(fn, wargs[-1], {}, 0) if wargs else ('unknown', 'x')
+        content = ctx.pv.eval(fl.owner_of(w), wargs[-1], {}, 0) if wargs else ('unknown', 'x')
         fmts = [s for s in P.subterms(content) if s[0] == 'fmt' and s[1] == '{}\\n{}']
         hdr_ok = False
         tok_ok = False
@@ -204,22 +206,22 @@ def rule_cli_generate(ctx):
         # rustfmt only under !no_formatting
         fmt_fn = cli_fn(ctx, '::generate::format')
         if fmt_fn is not None:
-            fcalls = [n for n in H.calls_in(fn) if fmt_fn in ctx.pv.local_fns(n.get('callee'))]
+            fcalls = fl.calls_of(fmt_fn)
             for n in fcalls:
-                pcs = P.path_conds(fn, n)
-                guarded = any(pc[0] == 'if' and 'no_formatting' in repr(ctx.pv.eval(fn, pc[1], {}, 0)) for pc in pcs)
+                pcs = fl.path_conds(n)
+                guarded = any(pc[0] == 'if' and 'no_formatting' in repr(ctx.pv.eval(o_, pc[1], {}, 0)) for o_, pc in pcs)
                 if guarded:
                     obs.append(ok('OUT-CONTENT', 'generate/rustfmt', 'rustfmt applied only when --no-formatting is absent', n.get('sp', '')))
                 else:
                     obs.append(bad('OUT-CONTENT', 'generate/rustfmt', 'rustfmt is applied regardless of --no-formatting', n.get('sp', ''), 'flag has no effect'))
-        tr, why = truncates(fn, creates[0])
+        tr, why = truncates(fl.owner_of(creates[0]), creates[0])
         if tr:
             obs.append(ok('OUT-CONTENT', 'generate/truncate', 'an existing destination file is replaced (%s)' % why, creates[0].get('sp', '')))
         else:
             obs.append(bad('OUT-CONTENT', 'generate/truncate', 'the destination file is %s' % why, creates[0].get('sp', ''),
                            'regenerating a shorter module leaves the tail of the old file: the file is not what the library produces'))
         # OUT-PATH
-        dest = ctx.pv.eval(fn, creates[0]['args'][0], {}, 0)
+        dest = ev(creates[0]['args'][0])
         consts = TM.consts_in(dest)
         xfs = {x for _, xs in TM.paths(dest) for x in xs}
         fields = {f.split('.')[-1] for f in TM.fields_in(dest)}
@@ -229,7 +231,7 @@ def rule_cli_generate(ctx):
             obs.append(bad('OUT-PATH', 'generate/dest', 'destination path is built from %s with %s and constants %s' % (sorted(fields), sorted(xfs), sorted(map(str, consts))),
                            creates[0].get('sp', ''), 'output lands in the wrong file'))
         # both alternatives use extension rs
-        ext_calls = [n for _f, n in H.deep_nodes(ctx, fn, creates[0]['args'][0], 2, None, True) if n['k'] == 'mcall' and n['method'] == 'with_extension']
+        ext_calls = [n for n in fl.mcalls('with_extension')]
         exts = {a['lit']['v'] if a.get('k') == 'lit' else '<computed>' for n in ext_calls for a in n['args']}
         # every way the destination derives from the query path / output directory goes through with_extension
         uncovered = [o for o, xs in TM.paths(dest) if o[0] == 'field' and o[1].split('.')[-1] in ('query_path', 'output_directory') and 'with_extension' not in xs]
@@ -238,19 +240,19 @@ def rule_cli_generate(ctx):
         # NO-WRITE-ON-ERROR
         c = creates[0]
         if gens:
-            kind, _ = H.consumption(fn, gens[0])
-            okp, why = H.precedes(fn, gens[0], c)
+            kind, _ = fl.consumption(gens[0])
+            okp, why = fl.precedes(gens[0], c)
             if kind == 'propagated' and okp:
                 obs.append(ok('NO-WRITE-ON-ERROR', 'generate/create-after-generation', 'File::create is preceded by the `?`-propagated library call', c.get('sp', '')))
             else:
                 obs.append(bad('NO-WRITE-ON-ERROR', 'generate/create-after-generation', 'file is created although generation may have failed (%s; %s)' % (kind, why), c.get('sp', ''),
                                'a generation error leaves an (empty) output file behind'))
         if fmt_fn is not None:
-            for n in [n for n in H.calls_in(fn) if fmt_fn in ctx.pv.local_fns(n.get('callee'))]:
-                kind, _ = H.consumption(fn, n)
+            for n in fl.calls_of(fmt_fn):
+                kind, _ = fl.consumption(n)
                 # the format call sits in an if-expression whose value feeds a let: the let statement must precede the create
                 stmt = n
-                okp, why = H.precedes(fn, n, c)
+                okp, why = fl.precedes(n, c)
                 if kind == 'propagated' and (okp or 'conditional' in why):
                     obs.append(ok('NO-WRITE-ON-ERROR', 'generate/create-after-format', 'rustfmt failure propagates before the file is created', n.get('sp', '')))
                 else:
@@ -260,8 +262,9 @@ def rule_cli_generate(ctx):
     if mainf is None or not mainf.d.get('output', '').startswith('std::result::Result<'):
         obs.append(bad('NO-WRITE-ON-ERROR', 'main/exit-status', 'main does not return a Result', mainf.loc if mainf else '', 'errors do not give a non-zero exit status'))
     else:
-        gcalls = [n for n in H.calls_in(mainf) if fn in ctx.pv.local_fns(n.get('callee'))]
-        if gcalls and H.consumption(mainf, gcalls[0])[0] in ('returned', 'propagated'):
+        flm = H.Flat(ctx, mainf, 2)
+        gcalls = flm.calls_of(fn)
+        if gcalls and flm.consumption(gcalls[0])[0] in ('returned', 'propagated'):
             obs.append(ok('NO-WRITE-ON-ERROR', 'main/exit-status', 'main returns generate_code\'s Result (non-zero exit on Err)', gcalls[0].get('sp', '')))
         else:
             obs.append(bad('NO-WRITE-ON-ERROR', 'main/exit-status', 'result of generate_code is not returned from main', mainf.loc, 'exit status 0 on error'))
@@ -286,14 +289,15 @@ def rule_introspect(ctx):
     cli = ctx.crate('cli')
     env = H.sym_env(fn)
     params = {p.get('name'): i for i, p in enumerate(fn.params) if p.get('k') == 'bind'}
-    mcalls = [n for n in walk(fn.body) if n['k'] == 'mcall']
+    fl = H.Flat(ctx, fn, 2)
+    mcalls = fl.mcalls()
     by = {}
     for n in mcalls:
         by.setdefault(n['method'], []).append(n)
     # --- REQ-BUILD
     posts = by.get('post', [])
-    if len(posts) == 1 and posts[0]['args'] and ctx.pv.eval(fn, posts[0]['args'][0], env, 0)[:1] == ('param',) and \
-            ctx.pv.eval(fn, posts[0]['args'][0], env, 0)[3] == 'location':
+    if len(posts) == 1 and posts[0]['args'] and fl.eval(posts[0]['args'][0])[:1] == ('param',) and \
+            fl.eval(posts[0]['args'][0])[3] == 'location':
         obs.append(ok('REQ-BUILD', 'introspect/post', 'one POST to the given location', posts[0].get('sp', '')))
     else:
         obs.append(bad('REQ-BUILD', 'introspect/post', 'expected exactly one .post(location), found %d' % len(posts), fn.loc, 'request goes elsewhere / wrong method'))
@@ -307,7 +311,7 @@ def rule_introspect(ctx):
         obs.append(bad('REQ-BUILD', 'introspect/send', '%d send() calls' % len(sends), fn.loc, 'request sent several times / never'))
     jsons = [n for n in by.get('json', []) if 'RequestBuilder' in n['recv'].get('ty', '') + n.get('ty', '')]
     if len(jsons) == 1:
-        bt = ctx.pv.eval(fn, jsons[0]['args'][0], env, 0)
+        bt = fl.eval(jsons[0]['args'][0])
         aggs = {l for _, l in P.leaves(bt) if l[0] == 'agg' and l[1].endswith('QueryBody')}
         if aggs:
             obs.append(ok('REQ-BUILD', 'introspect/body', 'body = .json(QueryBody)', jsons[0].get('sp', '')))
@@ -318,15 +322,15 @@ def rule_introspect(ctx):
     hdrs = [n for n in by.get('header', [])]
     if hdrs:
         h = hdrs[0]
-        a0 = ctx.pv.eval(fn, h['args'][0], env, 0)
-        a1 = ctx.pv.eval(fn, h['args'][1], env, 0)
+        a0 = fl.eval(h['args'][0])
+        a1 = fl.eval(h['args'][1])
         f0 = {f for f in TM.fields_in(a0) if f.startswith('Header.')}
         f1 = {f for f in TM.fields_in(a1) if f.startswith('Header.')}
-        loop = any(c[0] == 'for' for c in H.conditional_context(fn, h))
+        itn = H.iteration_of(fl.owner_of(h), h)
+        loop = itn is not None
         if f0 == {'Header.name'} and f1 == {'Header.value'} and loop:
-            it = [c[1] for c in H.conditional_context(fn, h) if c[0] == 'for'][0]
-            itt = ctx.pv.eval(fn, it['iter'], env, 0)
-            if itt[:1] == ('param',) and itt[3] == 'headers' and not (H.__dict__['NEUTRAL_OPTION_METHODS'] and _chain(fn, it['iter']) & {'filter', 'take', 'skip', 'rev_'}):
+            itt = fl.eval(itn[1])
+            if itt[:1] == ('param',) and itt[3] == 'headers' and not (_chain(fl.owner_of(h), itn[1]) & {'filter', 'take', 'skip', 'step_by', 'take_while', 'skip_while', 'filter_map', 'dedup'}):
                 obs.append(ok('REQ-BUILD', 'introspect/custom-headers', 'every --header is added as (name, value)', h.get('sp', '')))
             else:
                 obs.append(bad('REQ-BUILD', 'introspect/custom-headers', 'header loop does not cover all given headers', h.get('sp', ''), 'some headers are not sent'))
@@ -358,7 +362,7 @@ def rule_introspect(ctx):
                                'header name/value swapped or only one header sent'))
     ba = by.get('bearer_auth', [])
     if ba:
-        t = ctx.pv.eval(fn, ba[0]['args'][0], env, 0)
+        t = fl.eval(ba[0]['args'][0])
         if 'authorization' in repr(t):
             obs.append(ok('REQ-BUILD', 'introspect/bearer', '--authorization -> bearer_auth', ba[0].get('sp', '')))
         else:
@@ -530,34 +534,65 @@ def rule_introspect(ctx):
                     obs.append(undecided('DOC-TABLE', inst, 'cannot follow the assignments (%s)' % undec, fn.loc))
                     continue
                 table_verdict(inst, mods.get(id(cur)), cur.get('sp', ''))
-    # --- STATUS + OUT-AFTER-SUCCESS
-    status_ifs = []
-    for n in walk(fn.body):
-        if n['k'] == 'if':
-            t = ctx.pv.eval(fn, n['cond'], env, 0)
-            if t[0] == 'op' and t[1] == 'is_success':
-                status_ifs.append(n)
-    if not status_ifs:
+    # --- STATUS + OUT-AFTER-SUCCESS (decided over introspect_schema together with the helpers it delegates to)
+
+    def is_success_term(t):
+        return t[0] == 'op' and t[1] == 'is_success'
+
+    def gate(owner):
+        """every way `owner` completes without an error was reached with is_success() == true"""
+        t = ctx.pv.eval(owner, owner.body, H.sym_env(owner), 0)
+        constrained = False
+        leaks = []
+        for conds, leaf in P.leaves(t):
+            pol = None
+            for c in conds:
+                if c[0] == 'if' and is_success_term(c[1]):
+                    pol = c[2]
+            is_err = leaf[0] in ('err', 'diverge')
+            if pol is not None:
+                constrained = True
+            if not is_err and pol is not True:
+                leaks.append(P.show(leaf, 0, 2)[:40])
+        return constrained and not leaks, leaks
+
+    tests = [n for n in fl.mcalls('is_success') if 'StatusCode' in (n['recv'].get('ty', '') + n['recv'].get('aty', '') + ' '.join(H.callee_paths(n)))]
+    jres = [n for n in fl.mcalls('json') if 'Response' in n['recv'].get('ty', '')]
+    wr = [n for n in fl.calls() if any(p.endswith(('to_writer_pretty', 'to_writer')) and 'serde_json' in p for p in H.callee_paths(n))]
+    creates_ = [n for n in fl.calls() if any(p.startswith(FS_WRITES) or p.endswith(('File::create', 'fs::write', 'OpenOptions::open')) for p in H.callee_paths(n))]
+
+    def gated_by_success(node):
+        """is `node` executed only after is_success() held?  (its own path conditions, or a preceding `?`-propagated
+        helper that lets only successful responses through)"""
+        for o_, pc in fl.path_conds(node):
+            if pc[0] == 'if':
+                c = P.canon_if(ctx.pv.eval(o_, pc[1], H.sym_env(o_), 0), pc[2])
+                if is_success_term(c[1]) and c[2] is True:
+                    return True, 'on the is_success() branch'
+        for tnode in tests:
+            ow = fl.owner_of(tnode)
+            if ow is fn:
+                continue
+            g, _ = gate(ow)
+            px = fl.proxy[id(tnode)]
+            if g and fl.consumption(px)[0] == 'propagated' and fl.precedes(px, node)[0]:
+                return True, 'after `%s(..)?`, which lets only 2xx responses through' % short(ow.path)
+        return False, 'no is_success() condition on its path'
+
+    if not tests:
         obs.append(bad('STATUS', 'introspect/status', 'no `status().is_success()` test', fn.loc, 'non-2xx replies are written as if they were schemas'))
     else:
-        s0 = status_ifs[0]
-        def all_reject(e):
-            if e is None:
-                return False
-            if e.get('k') == 'if':
-                return (returns_err(e['then']) or P.diverges(e['then'])) and all_reject(e.get('else'))
-            return returns_err(e) or P.diverges(e)
-        if all_reject(s0.get('else')) and not P.diverges(s0['then']):
-            obs.append(ok('STATUS', 'introspect/status', 'every non-2xx branch returns Err', s0.get('sp', '')))
+        ow = fl.owner_of(tests[0])
+        g, leaks = gate(ow)
+        if g and (ow is fn or fl.consumption(fl.proxy[id(tests[0])])[0] == 'propagated'):
+            obs.append(ok('STATUS', 'introspect/status', 'every non-2xx path ends in Err (%s)' % short(ow.path), tests[0].get('sp', '')))
         else:
-            obs.append(bad('STATUS', 'introspect/status', 'a non-success status falls through to writing the body', s0.get('sp', ''), 'error replies are written to the output'))
-        jres = [n for n in by.get('json', []) if 'Response' in n['recv'].get('ty', '')]
-        wr = [n for n in H.calls_in(fn) if any(p.endswith(('to_writer_pretty', 'to_writer', 'to_string_pretty')) and 'serde_json' in p for p in H.callee_paths(n))]
+            obs.append(bad('STATUS', 'introspect/status', 'a non-success status falls through to writing the body (non-error completions without is_success: %s)' % leaks[:3], tests[0].get('sp', ''),
+                           'error replies are written to the output'))
         if jres and wr:
-            kind, _ = H.consumption(fn, jres[0])
-            gv = any('serde_json::Value' in (jres[0].get('ty', '') + (jres[0].get('callee') or {}).get('gargs', '')) for _ in [0])
-            p1, w1 = H.precedes(fn, s0, wr[0])
-            p2, w2 = H.precedes(fn, jres[0], wr[0])
+            kind, _ = fl.consumption(jres[0])
+            p1, w1 = gated_by_success(wr[0])
+            p2, w2 = fl.precedes(jres[0], wr[0])
             if kind == 'propagated' and p1 and p2:
                 obs.append(ok('STATUS', 'introspect/json-before-write', 'body parsed as JSON (`?`) and status checked before anything is written', wr[0].get('sp', '')))
             else:
@@ -565,22 +600,22 @@ def rule_introspect(ctx):
                                'a non-JSON or error reply is written'))
         else:
             obs.append(bad('STATUS', 'introspect/json-before-write', 'response.json()/to_writer calls not found', fn.loc, ''))
-        for c in fs_write_calls(fn):
-            okp, why = H.precedes(fn, s0, c)
-            okj = H.precedes(fn, jres[0], c)[0] if jres else False
+        for c in creates_:
+            okp, why = gated_by_success(c)
+            okj = fl.precedes(jres[0], c)[0] if jres else False
             if okp and okj:
                 obs.append(ok('OUT-AFTER-SUCCESS', 'introspect/create', 'output file is created only after a 2xx JSON reply', c.get('sp', '')))
             else:
                 obs.append(bad('OUT-AFTER-SUCCESS', 'introspect/create', 'the --output file is created/truncated before the request has succeeded', c.get('sp', ''),
                                'a failed run leaves an existing output file empty'))
-        for c in fs_write_calls(fn):
-            tr, why = truncates(fn, c)
+        for c in creates_:
+            tr, why = truncates(fl.owner_of(c), c)
             if tr:
                 obs.append(ok('OUT-AFTER-SUCCESS', 'introspect/truncate', 'the output file is replaced, not overwritten in place (%s)' % why, c.get('sp', '')))
             else:
                 obs.append(bad('OUT-AFTER-SUCCESS', 'introspect/truncate', 'the --output file is %s' % why, c.get('sp', ''),
                                'when the file already exists and is longer, the old tail stays: the output is not the server\'s JSON'))
-        if not fs_write_calls(fn):
+        if not creates_:
             obs.append(bad('OUT-AFTER-SUCCESS', 'floor', 'anchor-missing: no file creation in introspect_schema'))
     # --- HEADER-GUARDS
     hf = [f for f in cli.all_fns() if f.path.endswith('from_str') and 'Header' in f.path and not f.from_macro]
